@@ -49,6 +49,89 @@ pub fn cli_main() {
     let code = match args.get(1).map(|s| s.as_str()) {
         Some("worker") => worker(&args[2], &args[3], args.get(4).map(|s| s.as_str()).unwrap_or("rel")),
         Some("replay") => replay(&args[2]),
+        Some("sample") => {
+            // sample <Cxx> <n> <out-file> : write n generated cases (plus the templates) as JSON lines
+            let n: usize = args[3].parse().unwrap();
+            use proptest::strategy::{Strategy, ValueTree};
+            let rng = proptest::test_runner::TestRng::from_seed(proptest::test_runner::RngAlgorithm::ChaCha, &inputs::shard_seed(seed(), 7, &args[2]));
+            let mut runner = proptest::test_runner::TestRunner::new_with_rng(Default::default(), rng);
+            if &args[2] == "C17" || &args[2] == "C18" {
+                let mut out = String::new();
+                for _ in 0..n {
+                    if &args[2] == "C17" {
+                        let c = inputs_main::lcase_strategy(8).new_tree(&mut runner).unwrap().current();
+                        out.push_str(&inputs_main::to_json_l(&c));
+                    } else {
+                        let c = inputs_main::bcase_strategy(6).new_tree(&mut runner).unwrap().current();
+                        out.push_str(&inputs_main::to_json_b(&c));
+                    }
+                    out.push('\n');
+                }
+                std::fs::write(&args[4], out).unwrap();
+                std::process::exit(0);
+            }
+            let plan = profiles::plan(&args[2]).expect("history property");
+            let mut p = plan.profile.clone();
+            p.max_steps = p.max_steps.min(24);
+            p.max_ops = p.max_ops.min(5);
+            let s = r#gen::case_strategy(&p);
+            let mut out = String::new();
+            for (_, c) in templates::cases(&args[2]).into_iter().take(n / 4) {
+                out.push_str(&c.to_json());
+                out.push('\n');
+            }
+            for _ in 0..n {
+                out.push_str(&s.new_tree(&mut runner).unwrap().current().to_json());
+                out.push('\n');
+            }
+            std::fs::write(&args[4], out).unwrap();
+            0
+        }
+        Some("replay-many") => {
+            // replay-many <Cxx> <file> [from] [to] : run JSON-lines cases (used under Miri)
+            let text = std::fs::read_to_string(&args[3]).unwrap();
+            let lines: Vec<&str> = text.lines().filter(|l| !l.trim().is_empty()).collect();
+            let from: usize = args.get(4).and_then(|s| s.parse().ok()).unwrap_or(0);
+            let to: usize = args.get(5).and_then(|s| s.parse().ok()).unwrap_or(lines.len()).min(lines.len());
+            let mut bad = 0;
+            for (i, l) in lines.iter().enumerate().take(to).skip(from) {
+                if &args[2] == "C17" || &args[2] == "C18" {
+                    eprintln!("MIRI-CASE {i}");
+                    let o = if &args[2] == "C17" { inputs_main::layout_outcome(&serde_json::from_str(l).unwrap()) } else { inputs_main::builders_outcome(&serde_json::from_str(l).unwrap()) };
+                    for e in &o.errors {
+                        println!("case {i}: oracle {e}");
+                        println!("CASE-JSON {l}");
+                        bad += 1;
+                    }
+                    continue;
+                }
+                let case = lang::Case::from_json(l).unwrap();
+                eprintln!("MIRI-CASE {i}");
+                let r = driver::run_case(&case, exec::ExecOpts { hook: true, c09: &args[2] == "C09", ..Default::default() });
+                for v in &r.violations {
+                    if driver::relevant(&args[2], v) {
+                        println!("case {i}: oracle {} {}: {}", v.prop, v.tag, v.msg);
+                        println!("CASE-JSON {l}");
+                        bad += 1;
+                    }
+                }
+                for e in &r.internal {
+                    println!("case {i}: internal {e}");
+                }
+            }
+            println!("replayed {} cases, {bad} with violations", to.saturating_sub(from));
+            if bad > 0 { 1 } else { 0 }
+        }
+        Some("decode") => {
+            // decode <history|layout|builders> <bytes-file> : print the case a fuzz input decodes to
+            let data = std::fs::read(&args[3]).unwrap();
+            match args[2].as_str() {
+                "history" => println!("{}", decode::case(&data).to_json()),
+                "layout" => println!("{}", inputs_main::to_json_l(&decode::lcase(&data))),
+                _ => println!("{}", inputs_main::to_json_b(&decode::bcase(&data))),
+            }
+            0
+        }
         Some("gen") => {
             // print a few generated cases of a profile (debugging aid)
             let plan = profiles::plan(&args[2]).expect("history property");
@@ -79,7 +162,9 @@ fn worker(prop: &str, tier: &str, tag: &str) -> i32 {
     let seed = seed();
     let thorough = tier == "thorough";
     let _ = std::fs::create_dir_all(format!("{root}/failures"));
-    crash::install(&format!("{root}/failures/{prop}-crash-{tag}.json"));
+    if !cfg!(miri) {
+        crash::install(&format!("{root}/failures/{prop}-crash-{tag}.json"));
+    }
     let _ = std::fs::remove_file(format!("{root}/failures/{prop}-crash-{tag}.json"));
     if matches!(prop, "C16" | "C17" | "C18") {
         return input_worker(prop, tier, tag, seed, thorough, &root);
